@@ -18,6 +18,9 @@ CONSTANTS KINDS, DIRS,      \* sets of modes / directions covered by this run
           MAXU,             \* units (blocks; bytes for cfb8) each object consumes
           OBJS,             \* objects: "a" free schedule and aliasing, width W; "s" one block at a time, in place
                             \*          "p" free schedule in place, "q" free schedule buffer-to-buffer (C12)
+                            \*          "e" encryptor / "d" decryptor fed the encryptor's output (C01, C09)
+                            \*          "r" created by importing the exported state of "a" (C09)
+                            \*          "c" created by cloning "a"; continues on another data stream (C16)
           PROP              \* property id written into the replay records
 VARIABLES objs, last, ks, ksbad, dbg, fin, ist, sch, pend, kd
 
@@ -31,6 +34,8 @@ vars == <<objs, last, ks, ksbad, dbg, fin, ist, sch, pend, kd>>
 
 Kind == kd[1]
 Dir  == kd[2]
+DirOf(o) == IF o = "e" THEN "enc" ELSE IF o = "d" THEN "dec" ELSE Dir
+Derived == {"r", "c"}                 \* objects that come into being by an action, not in Init
 Unit == IF Kind = "cfb8" THEN 1 ELSE BS
 IvLen == IF Kind = "ige" THEN 2 * BS ELSE BS
 IV0  == VBlk("iv", 1, IvLen)
@@ -39,21 +44,34 @@ FacName(w) == "toy/" \o ToString(BS) \o "/" \o ToString(w)
 
 Init ==
   /\ kd \in KINDS \X DIRS
-  /\ objs = [o \in OBJS |-> NewObj(kd[1], kd[2], 1, WidthOf(o), BS, IF kd[1] = "cfb8" THEN 1 ELSE BS, "toy",
-                                    VBlk("iv", 1, IF kd[1] = "ige" THEN 2 * BS ELSE BS), "inner", "", -1, "live")]
+  /\ objs = [o \in OBJS \ Derived |->
+               NewObj(kd[1], IF o = "e" THEN "enc" ELSE IF o = "d" THEN "dec" ELSE kd[2], 1, WidthOf(o), BS,
+                      IF kd[1] = "cfb8" THEN 1 ELSE BS, "toy",
+                      VBlk("iv", 1, IF kd[1] = "ige" THEN 2 * BS ELSE BS), "inner", "", -1, "live")]
   /\ last = NoLast /\ ks = EmptyFn /\ ksbad = {} /\ dbg = EmptyFn /\ fin = FALSE
-  /\ ist = [o \in OBJS |-> ImplInit(kd[1], 1, VBlk("iv", 1, IF kd[1] = "ige" THEN 2 * BS ELSE BS), BS)]
+  /\ ist = [o \in OBJS \ Derived |-> ImplInit(kd[1], 1, VBlk("iv", 1, IF kd[1] = "ige" THEN 2 * BS ELSE BS), BS)]
   /\ sch = [o \in OBJS |-> <<>>]
   /\ pend = [o \in OBJS |-> FALSE]
 
 Consumed(o) == Len(objs[o].inp) \div Unit
 
+(* where object o's next input comes from: the decryptor reads the encryptor's output, a clone reads *)
+(* stream "y" after the clone point, a resumed object continues the origin's stream                 *)
+Avail(o) == IF o = "d" THEN (Len(objs["e"].out) - Len(objs["d"].inp)) \div Unit ELSE MAXU
+DataFor(o, k) ==
+  LET off == Len(objs[o].inp) IN
+  CASE o = "d" -> SubSeq(objs["e"].out, off + 1, off + k * Unit)
+    [] o = "c" -> VBlk("y", off + 1, k * Unit)
+    [] o = "r" -> VBlk("x", objs["r"].fromN + off + 1, k * Unit)
+    [] OTHER -> VBlk("x", off + 1, k * Unit)
+Total(o) == IF o = "r" THEN objs["r"].fromN + Len(objs["r"].inp) ELSE Len(objs[o].inp)
+
 Call(o, k, multi, b2b) ==
   LET off  == Len(objs[o].inp)
-      data == VBlk("x", off + 1, k * Unit)
+      data == DataFor(o, k)
       junk == IF b2b THEN VBlk("junk", off + 1, k * Unit) ELSE <<>>
-      r    == ImplBlocks(Kind, Dir, 1, ist[o], data, junk, b2b, multi, WidthOf(o), Unit, BS)
-  IN  /\ ~pend[o] /\ Consumed(o) + k <= MAXU
+      r    == ImplBlocks(Kind, DirOf(o), 1, ist[o], data, junk, b2b, multi, WidthOf(o), Unit, BS)
+  IN  /\ o \in DOMAIN objs /\ ~pend[o] /\ Total(o) \div Unit + k <= MAXU /\ k <= Avail(o)
       /\ Blocks(o, data, b2b, junk, multi, "ok", r.out)
       /\ ist' = [ist EXCEPT ![o] = r.ist]
       /\ sch' = [sch EXCEPT ![o] = Append(@, [op |-> "blocks", o |-> o, n |-> k, multi |-> multi, b2b |-> b2b])]
@@ -66,13 +84,31 @@ DoExport(o) ==
   /\ pend' = [pend EXCEPT ![o] = FALSE]
   /\ UNCHANGED ist
 
+(* a fresh object from the state "a" just exported: inner_iv_init(cipher, iv_state) *)
+DoImport ==
+  /\ "r" \in OBJS /\ "r" \notin DOMAIN objs /\ ~pend["a"] /\ Len(objs["a"].exps) > 0
+  /\ objs["a"].exps[Len(objs["a"].exps)].n = Len(objs["a"].inp)
+  /\ LET v == objs["a"].exps[Len(objs["a"].exps)].v IN
+       /\ New("r", Kind, Dir, 1, W, BS, Unit, "toy", v, "import", 16, Len(v), "ok", "a", -1)
+       /\ ist' = [o \in (DOMAIN ist) \cup {"r"} |-> IF o = "r" THEN ImplInit(Kind, 1, v, BS) ELSE ist[o]]
+  /\ sch' = [sch EXCEPT !["a"] = Append(@, [op |-> "import", o |-> "r", from |-> "a"])]   \* logged at the origin's point
+  /\ UNCHANGED pend
+
+DoClone ==
+  /\ "c" \in OBJS /\ "c" \notin DOMAIN objs /\ ~pend["a"]
+  /\ Clone("c", "a", "ok")
+  /\ ist' = [o \in (DOMAIN ist) \cup {"c"} |-> IF o = "c" THEN ist["a"] ELSE ist[o]]
+  /\ sch' = [sch EXCEPT !["a"] = Append(@, [op |-> "clone", o |-> "c", from |-> "a", src |-> [rand |-> 3]])]
+  /\ UNCHANGED pend
+
 CallFree(o)   == \E k \in 1..MAXU : \E multi \in BOOLEAN : \E b2b \in BOOLEAN : Call(o, k, multi, b2b)
 CallSingle(o) == Call(o, 1, FALSE, FALSE)
 CallIp(o)     == \E k \in 1..MAXU : \E multi \in BOOLEAN : Call(o, k, multi, FALSE)
 CallB2b(o)    == \E k \in 1..MAXU : \E multi \in BOOLEAN : Call(o, k, multi, TRUE)
-Exp           == \E o \in OBJS : DoExport(o)
+Exp           == \E o \in DOMAIN objs : DoExport(o)
 
-Done(ob, pe) == \A o \in OBJS : Len(ob[o].inp) \div Unit = MAXU /\ ~pe[o]
+Done(ob, pe) == \A o \in OBJS : /\ o \in DOMAIN ob /\ ~pe[o]
+                                 /\ (IF o = "r" THEN ob[o].fromN + Len(ob[o].inp) ELSE Len(ob[o].inp)) \div Unit = MAXU
 Frame == fin' = Done(objs', pend') /\ UNCHANGED kd
 
 ActA   == "a" \in OBJS /\ CallFree("a") /\ Frame
@@ -80,27 +116,39 @@ ActS   == "s" \in OBJS /\ CallSingle("s") /\ Frame
 ActP   == "p" \in OBJS /\ CallIp("p") /\ Frame
 ActQ   == "q" \in OBJS /\ CallB2b("q") /\ Frame
 ActExp == Exp /\ Frame
+ActE   == "e" \in OBJS /\ CallFree("e") /\ Frame
+ActD   == "d" \in OBJS /\ CallFree("d") /\ Frame
+ActR   == "r" \in OBJS /\ CallIp("r") /\ Frame
+ActC   == "c" \in OBJS /\ CallIp("c") /\ Frame
+ActImp == DoImport /\ Frame
+ActCln == DoClone /\ Frame
 
-Next == ActA \/ ActS \/ ActP \/ ActQ \/ ActExp
+Next == ActA \/ ActS \/ ActP \/ ActQ \/ ActExp \/ ActE \/ ActD \/ ActR \/ ActC \/ ActImp \/ ActCln
 
 Spec == Init /\ [][Next]_vars
 
 (* no byte that the output buffer held before the call survives in any output or exported state *)
-NoJunk == \A o \in OBJS : NoJunkIn(objs[o].out) /\ \A i \in 1..Len(objs[o].exps) : NoJunkIn(objs[o].exps[i].v)
+NoJunk == \A o \in DOMAIN objs : NoJunkIn(objs[o].out) /\ \A i \in 1..Len(objs[o].exps) : NoJunkIn(objs[o].exps[i].v)
 
-NewCmd(o) == [op |-> "new", o |-> o, fac |-> FacName(WidthOf(o)), kind |-> Kind, dir |-> Dir, key |-> 0,
-              iv |-> [rand |-> 0], src |-> [rand |-> 0], via |-> "inner"]
+NewCmd(o) == [op |-> "new", o |-> o, fac |-> FacName(WidthOf(o)), kind |-> Kind, dir |-> DirOf(o), key |-> 0,
+              iv |-> [rand |-> 0], src |-> IF o = "d" THEN [out |-> "e"] ELSE [rand |-> 0], via |-> "inner"]
 RECURSIVE CatAll(_, _)
 CatAll(S, f) == IF S = {} THEN <<>> ELSE LET o == CHOOSE x \in S : TRUE IN f[o] \o CatAll(S \ {o}, f)
-ReplayRec == [prop |-> PROP, cmds |-> CatAll(OBJS, [o \in OBJS |-> <<NewCmd(o)>>]) \o CatAll(OBJS, sch)]
+(* per-object call lists (objects are independent, so their interleaving is not part of the state); the     *)
+(* encryptor's calls come before the decryptor's, an import / clone sits at its place in the origin's list   *)
+Ordered == <<"e", "d", "a", "s", "p", "q", "r", "c">>
+RECURSIVE CatSeq(_, _, _)
+CatSeq(f, order, i) == IF i > Len(order) THEN <<>>
+                       ELSE (IF order[i] \in DOMAIN f THEN f[order[i]] ELSE <<>>) \o CatSeq(f, order, i + 1)
+ReplayRec == [prop |-> PROP,
+              cmds |-> CatSeq([o \in OBJS \ Derived |-> <<NewCmd(o)>>], Ordered, 1) \o CatSeq(sch, Ordered, 1)]
 (* for the in-place / buffer-to-buffer pair only behaviours in which both made the same calls are worth replaying *)
-SameShape(x, y) == /\ Len(sch[x]) = Len(sch[y])
-                   /\ \A i \in 1..Len(sch[x]) :
-                        /\ sch[x][i].op = sch[y][i].op
-                        /\ sch[x][i].op = "blocks" => (sch[x][i].n = sch[y][i].n /\ sch[x][i].multi = sch[y][i].multi)
+SameShape(x, y) == LET sx == sch[x]  sy == sch[y] IN
+                   /\ Len(sx) = Len(sy)
+                   /\ \A i \in 1..Len(sx) :
+                        /\ sx[i].op = sy[i].op
+                        /\ sx[i].op = "blocks" => (sx[i].n = sy[i].n /\ sx[i].multi = sy[i].multi)
 ReplayWorthy == ("p" \in OBJS /\ "q" \in OBJS) => SameShape("p", "q")
 EmitReplay == (fin /\ ReplayWorthy) => PrintT(<<"REPLAY", ToJson(ReplayRec)>>)
 
-(* the history of calls is observation only: identical object states reached by different interleavings are one state *)
-View == <<objs, last, ks, ksbad, dbg, fin, ist, pend, kd, sch>>
 =============================================================================
